@@ -369,6 +369,16 @@ func main() {
 		if m := hll.MurmurHashLongByte(b, int32(len(b))); m != refMurmur64A(b) {
 			c.Failf("MurmurHashLongByte:differs-from-reference", map[string]string{"input": vlib.Hex(b)}, "got %d ref %d", m, refMurmur64A(b))
 		}
+		// the explicit length is a parameter: hashing the first k bytes of a larger buffer must
+		// be the hash of those k bytes (added after seeded change C15r7-2, which took the tail
+		// from the slice's length)
+		if len(b) > 0 {
+			k := int(uint32(hash.Hash(b))>>1) % (len(b) + 1)
+			if m := hll.MurmurHashLongByte(b, int32(k)); m != refMurmur64A(b[:k]) {
+				c.Failf("MurmurHashLongByte:differs-from-reference/length-below-slice-length", map[string]string{"input": vlib.Hex(b), "length": fmt.Sprint(k)}, "got %d ref %d", m, refMurmur64A(b[:k]))
+			}
+			c.Count("murmur_long_prefix_lengths", 1)
+		}
 		if hc := stringutil.HashCode(string(b)); hc != refJavaHashCode(string(b)) {
 			c.Failf("HashCode:differs-from-reference", map[string]string{"input": vlib.Hex(b)}, "got %d", hc)
 		}
